@@ -420,6 +420,16 @@ class Source:
             raise ExtractError("lost-anchor", "cannot read %s: %s" % (rel, e))
         self.toks = rs.lex(self.text)
         self.items = rs.scan_items(self.toks, 0, len(self.toks))
+        # items of inline (non-test) modules are reachable too (e.g. `mod repr { impl Repr {..} }`)
+        work = list(self.items)
+        while work:
+            it = work.pop()
+            if it.kind == "mod" and "body_open" in it.extra and not self.is_test_item(it):
+                inner = rs.scan_items(self.toks, it.extra["body_open"] + 1, it.extra["body_close"])
+                for x in inner:
+                    x.extra["in_mod"] = it.name
+                self.items += inner
+                work += inner
 
     def line_of(self, offset):
         return self.text.count("\n", 0, offset) + 1
